@@ -706,3 +706,27 @@ def r3_12(rep):
             rep.check(kx == kp, "saw_base-iff-field", "saw_base and the field push run under the same conditions (%d)" % len(kx) if kx == kp else
                       "saw_base runs under %s, the `_base` field is pushed under %s: bases without storage are counted in the running offset"
                       % (kx or ["no condition"], kp), b.loc(x))
+
+
+@RULES.rule("R3.13", "an allocation unit is large enough for every bit-field put into it", floor=1)
+def r3_13(rep):
+    """`bitfields_to_allocation_units` tracks the unit's size as "end of the field just added".  That is the maximum only while
+    offsets increase.  In a union every bit-field starts at bit 0, so the size ends up being the width of the LAST one:
+    `union U { unsigned wide:20; int narrow:3; }` gets `__BindgenBitfieldUnit<[u8; 1]>` and `wide`'s accessors run out of bounds."""
+    prog = rep.prog
+    b = rep.need(prog.fn("ir::comp::bitfields_to_allocation_units"), "ir::comp::bitfields_to_allocation_units")
+    # the size variable: the one handed to flush_allocation_unit after the loop
+    fl = [c for c in b.calls(lambda n: n["k"] == "Call" and str(n.get("callee") or "").endswith("flush_allocation_unit"))]
+    rep.need(fl, "flush_allocation_unit calls")
+    size_ids = {strip(c["args"][2]).get("id") for c in fl if len(c["args"]) > 2 and strip(c["args"][2]).get("k") == "Local"}
+    asg = [n for n in b.nodes if n["k"] == "Assign" and strip(n["l"]).get("k") == "Local" and strip(n["l"])["id"] in size_ids and
+           not (strip(n["r"]).get("k") == "Lit")]
+    rep.need(asg, "the update of the unit size inside the loop")
+    for a in asg:
+        r = strip(a["r"])
+        monotone = r.get("k") in ("Call", "MCall") and str(r.get("resolved") or r.get("callee") or "").endswith("::max") and \
+            any(x["k"] == "Local" and x["id"] in size_ids for x in b.walk(r))
+        per_union = any(kind == "cond" and "is_union" in b.canon(g, 5) for pol, kind, g in b.guards(a))
+        rep.check(monotone or per_union, "unit-size-covers-every-field", "the unit size only grows (`max(size, end of field)`)" if monotone or per_union else
+                  "`unit_size = %s`: the size is the end of the LAST field, which is not the largest when fields overlap (unions)" % b.canon(r, 3)[:60],
+                  b.loc(a))
